@@ -265,6 +265,9 @@ func newCtx(p *Prog, prop, tier string) (*Ctx, error) {
 	}
 	setInlinePolicy()
 	theProg = p
+	if os.Getenv("VERIF_INTBITS") == "32" {
+		wordBits = 32
+	}
 	return c, nil
 }
 
